@@ -154,23 +154,27 @@ Section Plain.
     apply andb_true_iff. split; [apply andb_true_iff; split|].
     - (* attribute values are text *)
       apply forallb_forall. intros ea Hea. apply in_flat_map in Hea as [var [Hvar Hea]].
-      destruct (wf_class_avar m var Hwc Hvar) as [Hwa Hina].
-      pose proof (Hfa _ Hina) as Hfv. cbn [snd] in Hfv.
-      destruct (attr_cases c u ok ign var _ Hwa Hfv) as [[E _]|[t [E [_ [Hs _]]]]]; rewrite E in Hea; [destruct Hea|].
-      destruct Hea as [<-|[]]. cbn [snd].
-      destruct Hs as [Hs|[_ [q1 [Eq _]]]]; [apply (e_atoms_vshape_plain c u ok t _ _ Hs)|].
-      pose proof (noq_field cl fs var Hnq) as Hnv. rewrite Eq in Hnv. discriminate Hnv.
+      destruct (wf_class_avar m var Hwc Hvar) as [[Hwa Hina]|[Hav Hwv]].
+      + pose proof (Hfa _ Hina) as Hfv. cbn [snd] in Hfv.
+        destruct (attr_cases c u ok ign var _ Hwa Hfv) as [[E _]|[t [E [_ [Hs _]]]]]; rewrite E in Hea; [destruct Hea|].
+        destruct Hea as [<-|[]]. cbn [snd].
+        destruct Hs as [Hs|[_ [q1 [Eq _]]]]; [apply (e_atoms_vshape_plain c u ok t _ _ Hs)|].
+        pose proof (noq_field cl fs var Hnq) as Hnv. rewrite Eq in Hnv. discriminate Hnv.
+      + destruct (fits_map_inv ok m var _ (fits_mapvar c u ok py_isspace n cl fs m var Hfit Hm Hav)) as [mm [Ex _]].
+        rewrite Ex in Hea. cbn [RoundtripGen.e_attr] in Hea. apply in_map_iff in Hea as [kv [<- _]]. reflexivity.
     - (* attribute names are distinct *)
-      apply NoDup_nodup_by. rewrite <- (map_map fst clark_of).
-      assert (Hk : NoDup (map (fun b : XmlNs.qname * list atom => clark_of (fst b))
-                            (flat_map (fun var => e_attr var (field_of fs var)) (get_attribute_vars m)))).
-      { apply (nodup_flat_opt v_qname (fun b : XmlNs.qname * list atom => clark_of (fst b))).
-        - apply (avars_qnames_nodup m Hwc).
-        - intros var _. unfold RoundtripGen.e_attr. destruct (field_of fs var); try (left; reflexivity);
-            (destruct (is_array _ && negb (py_truthy _)); [left; reflexivity|];
-             destruct (ign && opt_skip var _); [left; reflexivity|]; right; eexists; split; [reflexivity|];
-             cbn [fst]; apply clark_split). }
-      rewrite map_map. exact Hk.
+      apply NoDup_nodup_by.
+      assert (Hfm : forall av, m_any_attributes m = [av] -> fits_map ok m av (field_of fs av) = true)
+        by (intros av Hav; apply (fits_mapvar c u ok py_isspace n cl fs m av Hfit Hm Hav)).
+      assert (Hxq0 : xsi_okq ok None) by (intros q0 Hq0; discriminate Hq0).
+      assert (Hxf0 : xsi_val None <> None -> find_any_attributes m XSI_TYPE = None) by (intros H0; exfalso; apply H0; reflexivity).
+      pose proof (enames_nodup c u ok ign fs m Hwc Hfa None Hfm Hxf0) as Hn.
+      pose proof (eats_names c u ok ign fs m Hwc Hfa None Hxq0 Hfm Hxf0) as He.
+      cbn [xsi_attr_e] in He. rewrite app_nil_r in He.
+      rewrite <- (map_map fst clark_of), He, map_map.
+      assert (Em : map (fun x : qname => clark_of (Bind.split_qname x)) (enames c u ign fs m None) = enames c u ign fs m None).
+      { rewrite <- (map_id (enames c u ign fs m None)) at 2. apply map_ext. intros q0. apply clark_split. }
+      rewrite Em. exact Hn.
     - (* content *)
       destruct (m_text m) as [tv|] eqn:Htx.
       + destruct (wf_class_inv m Hwc) as [F1 F2 F3 F4 F5 F6 F7 F8 F9 F10 F11 F12 F13].
